@@ -84,7 +84,11 @@ RULE = ("column streams: strictly increasing (docnum, value) adds with gaps and 
         "field stream: NUMERIC int (bits 8..64, signed/unsigned, default None/explicit, values at the range limits), "
         "NUMERIC float (bit patterns incl. -0.0, inf, NaN, subnormals), DATETIME (min/max), TEXT/ID/KEYWORD (code points "
         "at every UTF-8 length boundary, non-BMP), utf8decode on mutated byte strings; malformed sub-stream (invalid "
-        "bits/default, out-of-range values, lone surrogates): non-trivial = has a row without a value / a non-empty string")
+        "bits/default, out-of-range values, lone surrogates): non-trivial = has a row without a value / a non-empty string; "
+        "large-segment stream: 1500-3500 documents of small values through the shared 32 KB staging buffers of the "
+        "per-document columns, 3-8 documents at random positions with ONE value of a buffer or more (sortable ID of exactly "
+        "32767|32768|32769|32770..41768|65536+ bytes, stored value of 55K-120K characters that stays above 32 KB after zlib), "
+        "file and RAM storage, half of the cases followed by a second segment and optimize")
 ASSUMPTIONS = [
     "pickle, zlib and struct packing of floats round-trip (identity parameters of the model)",
     "column regions start at base position 0 in the model; the real readers are also run at non-zero base positions",
@@ -747,20 +751,22 @@ def stream_big(ctx):
 # stream 6: one large segment.  While a segment is written, all per-document columns share one
 # CompoundWriter whose sub-streams stage data in a 32 KB buffer; only a segment whose column data
 # crosses that buffer several times (with buffered lengths going up and down) exercises the flush
-# path.  Oracle = the supplied values themselves (Layer S `cell`: the value added for that row).
+# path.  The sizes of the single writes are part of the input space as well: most documents have small
+# values (many writes per buffer), and a few documents at random positions carry ONE value whose single
+# write is about as large as / larger than the staging buffer (VarBytes column value of exactly
+# buffer-1 / buffer / buffer+1 / >2*buffer bytes; a stored dict that is still larger than the buffer
+# after zlib), so that a write meets a buffer that is empty, partly filled and nearly full.  Half of
+# the cases then add a second small segment and optimize (the column copy of a merge goes through a
+# new sub-stream).  Oracle = the supplied values themselves (Layer S `cell`: the value added for that row).
 
-def _real_large(arg):
-    import random
-    import shutil
-    import tempfile
-    from whoosh import fields, index
-    seed, ndocs, storage = arg
-    rnd = random.Random(seed)
-    schema = fields.Schema(k=fields.ID(stored=True), body=fields.STORED, tag=fields.ID(sortable=True),
-                           n=fields.NUMERIC(int, 32, sortable=True), flag=fields.BOOLEAN(stored=True))
+_LARGE_BUF = 32 * 1024        # CompoundWriter's default buffersize
+_LARGE_ALPHA = u"0123456789abcdefghijklmnopqrstuvwxyz\u00e9\u4e2d"
+
+
+def _large_docs(rnd, ndocs, nbig, first=0):
     docs = []
-    for i in range(ndocs):
-        body = "".join(rnd.choice("0123456789abcdefghijklmnopqrstuvwxyz\u00e9\u4e2d") for _ in range(rnd.randint(0, 700)))
+    for i in range(first, first + ndocs):
+        body = u"".join(rnd.choice(_LARGE_ALPHA) for _ in range(rnd.randint(0, 700)))
         d = {"k": u"k%06d" % i}
         if rnd.random() < 0.9:
             d["body"] = body
@@ -769,6 +775,60 @@ def _real_large(arg):
         if rnd.random() < 0.7:
             d["n"] = rnd.randint(-2 ** 31, 2 ** 31 - 1)
         docs.append(d)
+    # documents with one value of about / more than one staging buffer, anywhere in the segment
+    sizes = [_LARGE_BUF - 1, _LARGE_BUF, _LARGE_BUF + 1, _LARGE_BUF + rnd.randint(2, 9000), 2 * _LARGE_BUF + rnd.randint(0, 5000)]
+    for _ in range(min(nbig, ndocs)):
+        d = docs[rnd.randrange(ndocs)]
+        which = rnd.choice(["tag", "body", "both"])
+        if which in ("tag", "both"):
+            head = u"T%s-" % d["k"]
+            d["tag"] = head + u"".join(rnd.choices(_LARGE_ALPHA[:36], k=rnd.choice(sizes) - len(head)))   # ASCII: bytes == chars
+        if which in ("body", "both"):
+            # ~5.3 bits per character after zlib: 55K+ characters stay above the buffer size compressed
+            d["body"] = u"".join(rnd.choices(_LARGE_ALPHA, k=rnd.choice([55000, 70000, 120000]) + rnd.randint(0, 999)))
+    return docs
+
+
+def _large_compare(ix, schema, docs, bad, label):
+    with ix.searcher() as s:
+        r = s.reader()
+        if r.doc_count_all() != len(docs):
+            bad.append(("doc count" + label, 0, len(docs), r.doc_count_all()))
+            return
+        tag, num = r.column_reader("tag"), r.column_reader("n")
+        for docnum, d in enumerate(docs):
+            want = {k: v for k, v in d.items() if k in ("k", "body")}
+            try:
+                got = r.stored_fields(docnum)
+            except Exception as e:  # noqa
+                got = "!" + type(e).__name__
+            if got != want:
+                bad.append(("stored_fields" + label, docnum, str(want)[:80], str(got)[:80]))
+            try:
+                gt = tag[docnum]
+            except Exception as e:  # noqa
+                gt = "!" + type(e).__name__
+            if gt != d.get("tag", u""):
+                bad.append(("column tag" + label, docnum, "len %d %s" % (len(d.get("tag", u"")), d.get("tag", u"")[:60]),
+                            "len %d %s" % (len(gt), gt[:60])))
+            try:
+                gn = num[docnum]
+            except Exception as e:  # noqa
+                gn = "!" + type(e).__name__
+            if "n" in d and gn != d["n"]:
+                bad.append(("column n" + label, docnum, d["n"], gn))
+
+
+def _real_large(arg):
+    import random
+    import shutil
+    import tempfile
+    from whoosh import fields, index
+    seed, ndocs, storage, nbig, merge = arg
+    rnd = random.Random(seed)
+    schema = fields.Schema(k=fields.ID(stored=True), body=fields.STORED, tag=fields.ID(sortable=True),
+                           n=fields.NUMERIC(int, 32, sortable=True), flag=fields.BOOLEAN(stored=True))
+    docs = _large_docs(rnd, ndocs, nbig)
     tmp = tempfile.mkdtemp(prefix="wverif-c08large-")
     bad = []
     try:
@@ -780,48 +840,45 @@ def _real_large(arg):
         with ix.writer() as w:
             for d in docs:
                 w.add_document(**d)
-        with ix.searcher() as s:
-            r = s.reader()
-            tag, num = r.column_reader("tag"), r.column_reader("n")
-            ndefault = schema["n"].column_type.default_value() if hasattr(schema["n"].column_type, "default_value") else None
-            for docnum, d in enumerate(docs):
-                want = {k: v for k, v in d.items() if k in ("k", "body")}
-                try:
-                    got = r.stored_fields(docnum)
-                except Exception as e:  # noqa
-                    got = "!" + type(e).__name__
-                if got != want:
-                    bad.append(("stored_fields", docnum, str(want)[:80], str(got)[:80]))
-                try:
-                    gt = tag[docnum]
-                except Exception as e:  # noqa
-                    gt = "!" + type(e).__name__
-                if gt != d.get("tag", u""):
-                    bad.append(("column tag", docnum, d.get("tag", u"")[:60], gt[:60]))
-                try:
-                    gn = num[docnum]
-                except Exception as e:  # noqa
-                    gn = "!" + type(e).__name__
-                if "n" in d and gn != d["n"]:
-                    bad.append(("column n", docnum, d["n"], gn))
+        _large_compare(ix, schema, docs, bad, "")
+        if merge and not bad:
+            # a second segment, then everything merged into one: the optimizing writer numbers its own
+            # documents first, then the documents of the segment it merges in
+            more = _large_docs(rnd, merge, 1 if merge > 3 else 0, first=ndocs)
+            w = ix.writer()
+            for d in more:
+                w.add_document(**d)
+            w.commit(optimize=True)
+            _large_compare(ix, schema, more + docs, bad, " after optimize")
+            docs = more + docs
+    except Exception as e:  # noqa
+        bad.append(("index build", 0, "builds and reads", "%s: %s" % (type(e).__name__, str(e)[:120])))
     finally:
         shutil.rmtree(tmp, ignore_errors=True)
-    return ndocs, sum(len(d.get("body", "")) for d in docs), bad[:5], len(bad)
+    nlarge = sum(1 for d in docs if len(d.get("tag", u"")) >= _LARGE_BUF - 1 or len(d.get("body", u"")) >= _LARGE_BUF)
+    return ndocs, sum(len(d.get("body", "")) for d in docs), bad[:5], len(bad), nlarge
 
 
-def stream_large(ctx):
+def stream_large(ctx, args=None):
     rng = ctx.rng("large")
-    args = [(rng.randrange(1 << 30), rng.choice([1500, 2500, 3500]), st)
-            for st in (["file", "ram"] * ctx.budget(2, 8))]
-    for (seed, ndocs, storage), (n, size, bad, nbad) in zip(args, ctx.pmap(_real_large, args)):
-        ctx.case(("large", seed, ndocs, storage), nontrivial=size > 3 * 32768)
+    if args is None:
+        args = []
+        for k, st in enumerate(["file", "ram"] * ctx.budget(2, 8)):
+            merge = rng.choice([2, 40]) if k % 4 in (1, 2) else 0
+            args.append((rng.randrange(1 << 30), rng.choice([1500, 2500] if merge else [1500, 2500, 3500]), st,
+                         rng.choice([3, 5, 8]), merge))
+    for (seed, ndocs, storage, nbig, merge), (n, size, bad, nbad, nlarge) in zip(args, ctx.pmap(_real_large, args)):
+        ctx.case(("large", seed, ndocs, storage, nbig, merge), nontrivial=size > 3 * 32768)
         ctx.stat("large:storage=" + storage)
+        ctx.stat("large:merged=%s" % bool(merge))
+        ctx.stat("large:docs-with-a-value-of-a-buffer-or-more=%s" % ("0" if not nlarge else "1+"))
         if nbad:
             ctx.violation("large-segment:%s!=supplied-value" % bad[0][0].replace(" ", "-"),
-                          {"_stream": "large", "seed": seed, "ndocs": ndocs, "storage": storage, "first_bad": bad},
+                          {"_stream": "large", "_pickle": _pack((seed, ndocs, storage, nbig, merge)), "seed": seed,
+                           "ndocs": ndocs, "storage": storage, "big_values": nbig, "merge": merge, "first_bad": bad},
                           "every row returns the value supplied for it", "%d rows differ" % nbad,
                           "stored/column values of a segment large enough to flush the column staging buffer "
-                          "several times")
+                          "several times, with a few single values of about / more than one buffer (32 KB)")
 
 
 # ------------------------------------------------------------------------------------------------
@@ -899,6 +956,8 @@ def _dispatch(ctx, by):
         stream_segs(ctx, 0, by["segs"])
     if by.get("fields"):
         stream_fields(ctx, 0, by["fields"])
+    if by.get("large"):
+        stream_large(ctx, by["large"])
 
 
 def _corpus(ctx):
